@@ -269,6 +269,10 @@ void do_op(string op, string ctx) {
     o = ob_of("ec");
     if (o) o->probe();
     break;
+  case "xcall2":   // xcall2:O:FUNCTION:STRING:INT
+    o = ob_of(f[1]);
+    if (o) call_other(o, f[2], f[3], to_int(f[4]));
+    break;
   case "clr":
     map_delete(scripts, f[1]);
     break;
